@@ -21,9 +21,10 @@ Definition dec_dflt (s : sexp) : option (@dflt Z) :=
   | _ => None
   end.
 Definition dec_family (s : sexp) : option family :=
-  match s with SA "foreach" => Some Foreach | SA "loop" => Some Loop | _ => None end.
+  match s with SA "foreach" => Some Foreach | SA "loop" => Some Loop | SA "swallow" => Some ForeachSwallow | _ => None end.
 
-Definition enc_rhs (r : @rhs Z) : sexp := match r with RLeaf v => SL [SA "leaf"; SZ v] | ROperand => SA "operand" end.
+Definition enc_rhs (r : @rhs Z) : sexp :=
+  match r with RLeaf v => SL [SA "leaf"; SZ v] | ROperand => SA "operand" | RUnchanged => SA "unchanged" end.
 Definition enc_res {A} (f : A -> sexp) (r : res A) : sexp :=
   match r with Ok a => SL [SA "ok"; f a] | Raised => SA "raise" end.
 
@@ -106,26 +107,46 @@ Definition enc_call (c : leafcall) : sexp :=
   | LcFeature => SA "feature"
   | LcDim d k => SL [SA "dim"; enc_pdim d; enc_kd k]
   end.
+Definition enc_post (p : post) : sexp :=
+  match p with PostNone => SA "nopost" | PostUnsqueeze n => SL [SA "unsqueeze"; enc_nat n] | PostReshapeOnes => SA "reshape-ones" end.
 Definition enc_red (r : red_out) : sexp :=
-  SL [enc_shape (ro_bs r); enc_opt (enc_list enc_name) (ro_names r); enc_call (ro_call r)].
+  SL [enc_shape (ro_bs r); enc_opt (enc_list enc_name) (ro_names r); enc_call (ro_call r); enc_post (ro_post r)].
+
+Definition dec_dunder (s : sexp) : option dunder :=
+  match s with
+  | SA "__add__" => Some DuAdd | SA "__radd__" => Some DuRadd | SA "__iadd__" => Some DuIadd
+  | SA "__sub__" => Some DuSub | SA "__rsub__" => Some DuRsub | SA "__isub__" => Some DuIsub
+  | SA "__mul__" => Some DuMul | SA "__rmul__" => Some DuRmul | SA "__imul__" => Some DuImul
+  | SA "__truediv__" => Some DuTruediv | SA "__rtruediv__" => Some DuRtruediv | SA "__itruediv__" => Some DuItruediv
+  | SA "__pow__" => Some DuPow | SA "__rpow__" => Some DuRpow | SA "__ipow__" => Some DuIpow
+  | SA "__and__" => Some DuAnd | SA "__rand__" => Some DuRand | SA "__or__" => Some DuOr | SA "__ror__" => Some DuRor
+  | SA "__xor__" => Some DuXor | SA "__rxor__" => Some DuRxor
+  | _ => None
+  end.
+Definition enc_method (m : method) : sexp :=
+  SA (match m with MAdd => "add" | MSub => "sub" | MMul => "mul" | MDiv => "div" | MPow => "pow" | MAnd => "and"
+               | MOr => "or" | MXor => "xor" | MMulRecip => "mul-reciprocal" | MNotImpl => "not-implemented" end).
 
 Definition dispatch (cmd : string) (args : list sexp) : option sexp :=
   match cmd, args with
-  | "binary", [f; d; s; o] =>
-      match dec_family f, dec_dflt d, dec_items s, dec_operand o with
-      | Some f, Some d, Some s, Some o => Some (enc_res enc_bin (binary_plan f s o d))
-      | _, _, _, _ => None
+  | "binary", [f; cl; d; s; o] =>
+      match dec_family f, dec_bool cl, dec_dflt d, dec_items s, dec_operand o with
+      | Some f, Some cl, Some d, Some s, Some o => Some (enc_res enc_bin (binary_plan f cl s o d))
+      | _, _, _, _, _ => None
       end
-  | "inplace", [fx; s; o] =>
-      match dec_bool fx, dec_items s, dec_operand o with
-      | Some fx, Some s, Some o => Some (enc_res enc_bin (inplace_plan (fx || fixed_inplace_extra) s o))
-      | _, _, _ => None
+  | "inplace", [f; fx; s; o] =>
+      match dec_family f, dec_bool fx, dec_items s, dec_operand o with
+      | Some f, Some fx, Some s, Some o => Some (enc_res enc_bin (inplace_plan f (fx || fixed_inplace_extra) s o))
+      | _, _, _, _ => None
       end
   | "ternary", [fx; s; o1; o2] =>
       match dec_bool fx, dec_items s, dec_operand o1, dec_operand o2 with
       | Some fx, Some s, Some o1, Some o2 => Some (enc_res enc_tern (ternary_plan (fx || fixed_D18) s o1 o2))
       | _, _, _, _ => None
       end
+  | "dunder", [d] =>
+      option_map (fun d => let '(m, ip, sf) := dunder_impl fixed_rsub d in SL [enc_method m; enc_bool ip; enc_bool sf])
+                 (dec_dunder d)
   | "clamp", [s; lo; hi] =>
       match dec_items s, dec_items lo, dec_items hi with
       | Some s, Some lo, Some hi => Some (SL [SA "ok"; enc_clamp (clamp_plan s lo hi)])
